@@ -6,6 +6,7 @@ import (
 	"math/big"
 	"reflect"
 	"strings"
+	"sync"
 
 	"github.com/gcash/bchd/chaincfg"
 	"github.com/gcash/bchutil"
@@ -320,6 +321,81 @@ func c01lookalikeCase(c *vf.Ctx, i int) {
 	}
 }
 
+// ---- stream first-use-concurrent ------------------------------------------
+// The address codec's very first calls in a fresh child process, from 16
+// goroutines at the same instant (see c17firstUseInit for the rationale).
+
+type c01firstUse struct {
+	kind, net int
+	h         []byte
+	enc, dec  string
+	err       string
+}
+
+func c01firstUseInit(t vf.Tier, seed uint64) any {
+	const G = 16
+	out := make([][]c01firstUse, G)
+	var wg sync.WaitGroup
+	start := make(chan struct{})
+	for g := 0; g < G; g++ {
+		wg.Add(1)
+		go func(g int) {
+			defer wg.Done()
+			defer func() { recover() }()
+			r := vf.NewRand(vf.Mix(seed, 0xf01, uint64(g)))
+			<-start
+			for k := 0; k < 16; k++ {
+				ki := (k + g) % len(c01kinds)
+				ni := (k*5 + g) % len(allNets)
+				kd, net := c01kinds[ki], allNets[ni]
+				if kd.slp && net.P.SlpAddressPrefix == "" {
+					continue
+				}
+				h := r.Bytes(kd.size)
+				e := c01firstUse{kind: ki, net: ni, h: h}
+				a, err := kd.mk(h, net.P)
+				if err != nil {
+					e.err = "construct: " + err.Error()
+				} else {
+					e.enc = a.EncodeAddress()
+					d, err := bchutil.DecodeAddress(e.enc, net.P)
+					if err != nil {
+						e.err = "decode: " + err.Error()
+					} else {
+						e.dec = d.EncodeAddress() + "|" + hx(d.ScriptAddress())
+					}
+				}
+				out[g] = append(out[g], e)
+			}
+		}(g)
+	}
+	close(start)
+	wg.Wait()
+	var all []c01firstUse
+	for _, o := range out {
+		all = append(all, o...)
+	}
+	return all
+}
+
+func c01firstUseCase(c *vf.Ctx, i int) {
+	all, _ := c.Shared.([]c01firstUse)
+	if len(all) == 0 {
+		c.Inconclusive("first-use-results-missing")
+		return
+	}
+	for _, e := range all {
+		c.Evals(1)
+		kd, net := c01kinds[e.kind], allNets[e.net]
+		want := kd.want(e.h, net.P)
+		if e.err != "" || e.enc != want || e.dec != want+"|"+hx(e.h) {
+			c.Failf("first-use/"+kd.name, "first calls in a fresh process, 16 goroutines at once: kind=%s net=%s hash=%x: error %q, EncodeAddress()=%q (specification: %q), decoded back to %q", kd.name, net.Name, e.h, e.err, e.enc, want, e.dec)
+		}
+	}
+	c.Count("first_use_results_judged", int64(len(all)))
+	c.Nontrivial(vf.Mix(0xf01, uint64(i), c.Seed))
+}
+
 func c01scriptCase(c *vf.Ctx, i int) {
 	var script []byte
 	if i <= 520 {
@@ -626,6 +702,7 @@ func init() {
 			{Name: "pubkeys", N: func(t vf.Tier) int { return 66 + t.Sz(2000, 30000) }, Run: c01pubkeyCase},
 			{Name: "pubkeys-dual-valid", Init: c01dualInit, N: func(t vf.Tier) int { return t.Sz(36, 72) }, Run: c01pubkeyDualCase},
 			{Name: "legacy-zero-digit-runs", N: func(t vf.Tier) int { return t.Sz(600, 12000) }, Run: c01zeroRunCase},
+			{Name: "first-use-concurrent", Workers: 1, Shards: 8, Init: c01firstUseInit, N: func(t vf.Tier) int { return 8 }, Run: c01firstUseCase},
 			{Name: "payload-spells-words", N: func(t vf.Tier) int { return t.Sz(6*14*6, 6*14*60) }, Run: c01wordCase},
 			{Name: "legacy-cashaddr-lookalikes", N: func(t vf.Tier) int { return t.Sz(480, 9600) }, Run: c01lookalikeCase},
 			{Name: "pubkeys-cashaddr-charset", N: func(t vf.Tier) int { return t.Sz(400, 6000) }, Run: c01pubkeyCharsetCase},
